@@ -4,7 +4,7 @@
    Notation: aff M t p = M p + t;  mdet M = det M;  cof M = cofactor matrix;
    similarity M s: M M^T = s^2 I (rotations, reflections, uniform scalings and
    their products);  rotation M: similarity M 1 and det M = 1. *)
-From Coq Require Import ZArith Reals List String Permutation.
+From Coq Require Import ZArith Reals List String Permutation Lra.
 Import ListNotations.
 From FV.C11 Require Import Model Entry Proofs ProofsVol ProofsArea ProofsRef ProofsGauss.
 From FV.C11.gen Require Import Kernels.
@@ -100,6 +100,43 @@ Theorem C11_closed_form_hexprism : forall M t,
      (A M t (1,0,1)) (A M t (0,1,1)) (A M t (-1,1,1)) (A M t (-1,0,1)) (A M t (0,-1,1)) (A M t (1,-1,1))
   = 3 * mdet ROps M.
 Proof. intros. rewrite hexprism_affine, hexprism_ref. ring. Qed.
+
+(* ---- planar-faced elements that are NOT affine images (frusta, general
+   planar-faced hexahedra / wedges / pyramids): for ALL coordinates the linear
+   and the centroid kernel differ exactly by the non-planarity of the quadrilateral
+   faces, hence agree whenever every quadrilateral face is planar *)
+Theorem C11_modes_agree_planar_hex : forall p0 p1 p2 p3 p4 p5 p6 p7,
+  coplanar p3 p2 p1 p0 -> coplanar p5 p4 p0 p1 -> coplanar p6 p7 p4 p5 ->
+  coplanar p2 p3 p7 p6 -> coplanar p5 p1 p2 p6 -> coplanar p4 p7 p3 p0 ->
+  k_element_volumes_hex ROps p0 p1 p2 p3 p4 p5 p6 p7
+  = k_element_volumes_hex_centroid ROps p0 p1 p2 p3 p4 p5 p6 p7.
+Proof.
+  intros * H1 H2 H3 H4 H5 H6.
+  pose proof (hex_linear_centroid_defect p0 p1 p2 p3 p4 p5 p6 p7) as E.
+  rewrite !coplanar_defect in E by assumption. lra.
+Qed.
+Theorem C11_modes_agree_planar_prism : forall p0 p1 p2 p3 p4 p5,
+  coplanar p2 p5 p3 p0 -> coplanar p1 p4 p5 p2 -> coplanar p0 p3 p4 p1 ->
+  k_element_volumes_prism ROps p0 p1 p2 p3 p4 p5
+  = k_element_volumes_prism_centroid ROps p0 p1 p2 p3 p4 p5.
+Proof.
+  intros * H1 H2 H3.
+  pose proof (prism_linear_centroid_defect p0 p1 p2 p3 p4 p5) as E.
+  rewrite !coplanar_defect in E by assumption. lra.
+Qed.
+Theorem C11_modes_agree_planar_pyr : forall p0 p1 p2 p3 p4,
+  coplanar p1 p0 p3 p2 ->
+  k_element_volumes_pyr ROps p0 p1 p2 p3 p4 = k_element_volumes_pyr_centroid ROps p0 p1 p2 p3 p4.
+Proof.
+  intros * H1. pose proof (pyr_linear_centroid_defect p0 p1 p2 p3 p4) as E.
+  rewrite !coplanar_defect in E by assumption. lra.
+Qed.
+(* non-vacuity: a frustum (not a parallelepiped) has planar faces *)
+Example C11_frustum_planar :
+  coplanar (0,2,0) (2,2,0) (2,0,0) (0,0,0) /\ coplanar (1,0,1) (0,0,1) (0,0,0) (2,0,0) /\
+  coplanar (1,1,1) (0,1,1) (0,0,1) (1,0,1) /\ coplanar (2,2,0) (0,2,0) (0,1,1) (1,1,1) /\
+  coplanar (1,0,1) (2,0,0) (2,2,0) (1,1,1) /\ coplanar (0,0,1) (0,1,1) (0,2,0) (0,0,0).
+Proof. unfold coplanar. cbv [det3 vsub sub mul add ROps]. repeat split; ring. Qed.
 
 (* ---- areas: for every similarity (M M^T = s^2 I, s >= 0) and translation,
         area (M p + t) = s^2 * area p   (s = 1: rotations AND reflections) *)
